@@ -293,7 +293,8 @@ def specs(tier, seed):
             horizon = (3 if tier == 'quick' else rnd.choice([3, 4, 6])) / kappa
             N = max(4, int(round(horizon / dt)))
             N = min(N, 16)
-            levels = 2 if tier == 'quick' else 3
+            # a third halving (N = 64) only where it is affordable: exact rational histories grow by ~60 digits per step
+            levels = 3 if (tier == 'thorough' and t in ('T1', 'T3') and duty == 1) else 2
             for level in range(levels):
                 S.append(('conv', t, duty, N * 2 ** level, dt / 2 ** level, kappa, a, b, level, seed))
             for level in range(levels - 1):
@@ -317,7 +318,7 @@ BOUNDS = {
              'of two with kappa*dt <= 0.2 and its halving dt/2, horizon up to 3/kappa (N <= 16 and 32 steps), the pair (dt, dt/2) also simulated inside one exploration for the ratio test; on T1 and T3 the horizon also covered by two consecutive run() calls (the second with dt in ms and T in sec); every checked sample must be reported at k*dt; the initial '
              'speed, initial position and the constant load are solver variables over [-1e9, 1e9] (loads below and above '
              'stall, either sign)',
-    'thorough': '10 seeded chains of 3..8 elements, horizons 3..6/kappa, halvings dt, dt/2, dt/4 (N <= 16, 32, 64)',
+    'thorough': '10 seeded chains of 3..8 elements, horizons 3..6/kappa, halvings dt, dt/2 (N <= 16, 32) and a third halving dt/4 (N = 64) on T1 and T3',
 }
 OUTSIDE = ('the limit dt -> 0 itself (represented by 3-4 halvings); configurations and dt are sampled, not symbolic (a symbolic '
            'kappa*dt makes the trajectory a degree-N polynomial and the oracle transcendental); a scheme that is different but still '
